@@ -237,9 +237,10 @@ def gen_history(rng, n_edits, hidx):
             if inserted and rng.chance(2, 3):
                 edits.append("remove_type:%s" % inserted.pop())
             else:
-                name = "VerifExtra%d_%d" % (hidx, i)
+                # the name decides where the type sorts among the existing ones
+                name = "%sVerifExtra%d_%d" % (rng.pick(["", "Aa", "Zz"]), hidx, i)
                 inserted.append(name)
-                edits.append("insert_type:%s:%s:%d" % (name, rng.pick(["opaque", "struct", "enum"]), rng.below(64)))
+                edits.append("insert_type:%s:%s:%d" % (name, rng.pick(["opaque", "struct", "enum", "opaque_impl", "opaque_impl"]), rng.below(64)))
         else:
             if nonbridge and rng.chance(1, 2):
                 edits.append("remove_nonbridge")
